@@ -130,6 +130,9 @@ func solveAll(ctx *SMTCtx, obls []*Obligation, dir string, timeoutS int, workers
 							rr := r
 							fallback = &rr
 						}
+						if r.res == "timeout" {
+							ob.AnyTimeout = true
+						}
 					}
 					for _, c := range ctxs {
 						c()
